@@ -222,6 +222,39 @@ inline GraphInfo analyse(int n, const std::vector<GEdge>& es) {
   return gi;
 }
 
+// ------------------------------------------------------------------ replay: restrict the run to the edges of one recorded violation
+// (bin/vcheck replay <file> passes --replay <json>): the exploration is repeated, only edges whose description matches the
+// recorded input are re-executed, and their violation records are printed on standard output.
+struct ReplayFilter {
+  bool on; std::map<std::string, std::string> want;
+  ReplayFilter() : on(false) {}
+  static std::string field(const std::string& txt, const std::string& key) {
+    std::string pat = "\"" + key + "\":";
+    size_t p = txt.find(pat); if (p == std::string::npos) return "\x01";
+    p += pat.size(); while (p < txt.size() && txt[p] == ' ') ++p;
+    std::string out;
+    if (p < txt.size() && txt[p] == '"') {
+      for (++p; p < txt.size() && txt[p] != '"'; ++p) {
+        if (txt[p] == '\\' && p + 1 < txt.size()) { ++p; out += txt[p] == 'n' ? '\n' : txt[p]; } else out += txt[p];
+      }
+    } else while (p < txt.size() && txt[p] != ',' && txt[p] != '}') out += txt[p++];
+    return out;
+  }
+  void load(const std::string& path) {
+    std::ifstream f(path.c_str()); std::stringstream ss; ss << f.rdbuf(); std::string txt = ss.str();
+    size_t ip = txt.find("\"input\""); if (ip != std::string::npos) txt = txt.substr(ip);
+    const char* keys[] = {"domain", "dim", "operator", "older", "newer"};
+    for (const char* k : keys) { std::string v = field(txt, k); if (v != "\x01") want[k] = v; }
+    on = true;
+  }
+  bool match(const std::string& domain, int dim, const std::string& op, const std::string& older, const std::string& newer) const {
+    if (!on) return true;
+    auto ok = [&](const char* k, const std::string& v) { std::map<std::string, std::string>::const_iterator it = want.find(k); return it == want.end() || it->second == v; };
+    return ok("domain", domain) && ok("dim", std::to_string(dim)) && ok("operator", op) && ok("older", older) && ok("newer", newer);
+  }
+};
+inline ReplayFilter& replay() { static ReplayFilter r; return r; }
+
 // ------------------------------------------------------------------ per-operator counters shared between workers
 enum { OC_REP_PAIRS = 0, OC_TOKEN = 1, OC_LIMITED = 2, OC_BOUNDED = 3, OC_LIBCERT = 4, OC_INDEP = 5, OC_INDEP_UNDET = 6,
        OC_SUPERSET = 7, OC_CONSTARG = 8, OC_TOKEN_WASTED_LIMITED = 9, OC_EDGES_DONE = 10, OC_INDEP_FAIL = 11, OC_REPDEP_CAVEAT = 12, OC_LIBCERT_FAIL = 13, OC_SAME_ARGS_CHANGED = 14, OC_N = 16 };
@@ -347,6 +380,7 @@ struct Game {
   std::unordered_map<int, std::vector<Rep> > REPS;        // class -> synthetic representations (phase A, parent)
   bool caveat_as_violation = false;
   int max_depth, rep_mode;     // rep_mode 0: star, 1: full product
+  bool phase_a_cut = false;    // exploration stopped by the time budget (graphs reported as not closed)
   int limit_cap = 0;           // > 0: keep only that many limiting constraints (the first cap-1 and the last)     // rep_mode 0: star (natural x all + all x natural + diagonal), 1: full product
 
   struct Node { int cls; P natural; int parent, via; int depth; };
@@ -354,7 +388,7 @@ struct Game {
   struct OpGraph { std::vector<Node> nodes; std::unordered_map<int, int> node_of; std::vector<Edge> edges; bool closed; int depth_done; };
   std::vector<OpGraph> G;
 
-  Game(D& d_, const Args& a, int base) : d(d_), args(a), op_base(base), max_depth(8), rep_mode(0) { opc(); shared(); }
+  Game(D& d_, const Args& a, int base) : d(d_), args(a), op_base(base), max_depth(8), rep_mode(0) { opc(); shared(); if (!a.replay.empty() && !replay().on) replay().load(a.replay); }
 
   P cl(const Obj& o) { return P(d.clone(o)); }
   int cls_of(const Obj& o) { RefGuard g; return CL.classify(d.value(o)); }
@@ -425,6 +459,8 @@ struct Game {
         if (cur.empty()) { g.closed = true; break; }
         for (size_t fi = 0; fi < cur.size(); ++fi) {
           int ni = cur[fi];
+          // phase A may use at most 45% of the budget: the rest is needed to check the edges found so far
+          if (args.left() < args.deadline * 0.55) { phase_a_cut = true; break; }
           for (size_t mi = 0; mi < MENU.size(); ++mi) {
             P y = cl(*g.nodes[ni].natural);
             d.join(*y, *MENU[mi].obj);
@@ -439,6 +475,7 @@ struct Game {
             g.edges.push_back(e);
           }
         }
+        if (phase_a_cut) { frontier.push_back(-1); break; }
         g.depth_done = depth;
         if (args.expired()) break;
       }
@@ -450,6 +487,7 @@ struct Game {
   struct Item { int op, edge; };
   std::vector<Item> ITEMS;
   void make_items() {
+    if (phase_a_cut) count(CNT_SKIPPED);      // the run is then reported as not exhaustive
     for (size_t oi = 0; oi < G.size(); ++oi) for (size_t e = 0; e < G[oi].edges.size(); ++e) { Item it; it.op = (int)oi; it.edge = (int)e; ITEMS.push_back(it); }
   }
 
@@ -499,6 +537,7 @@ struct Game {
     const int gop = op_base + oi;
     const int xcls = g.nodes[e.from].cls, ycls = e.ycls, rcls = g.nodes[e.to].cls;
     const Obj& xnat = *g.nodes[e.from].natural;
+    if (!replay().match(d.name, d.dim, op.name, T(xcls), T(ycls))) return;
     long long sub = 0;
     auto want = [&]() -> bool { long long my = sub++; if (!pool().want(my, sub_start)) return false; pool().step(my); return true; };
 
